@@ -1,5 +1,6 @@
 """C01 - YUV->RGB decoding equals the H.273 definition for every code triple."""
 import random
+import os
 from vlib.check import Plan
 from vlib import native
 from props import yuvfam as Y
@@ -30,6 +31,10 @@ def select_cfgs(tier, seed):
 def plan(tier, seed):
     p = Plan()
     p.native = True
+    p.stubbing = True
+    p.modules.append(("yuvxyb-math/src/matrix.rs", open(os.path.join(os.path.dirname(__file__), "..", "harness", "math_stub.rs")).read()))
+    p.modules.append(("src/yuv.rs", open(os.path.join(os.path.dirname(__file__), "..", "harness", "yuv_unchecked.rs")).read()))
+    p.modules.append(("yuvxyb-math/src/lib.rs", open(os.path.join(os.path.dirname(__file__), "..", "harness", "math_stub_lib.rs")).read()))
     wcfgs = w_instances(tier, seed)
 
     def late(ctx, plan):
@@ -50,9 +55,16 @@ def plan(tier, seed):
         for (T, bd, full, mi) in wcfgs:
             n, code = Y.w_decode(T, bd, full, mi)
             txt += code
-            hs.append(dict(name=n, family="W", timeout=1500, mem_gb=12, rkind="wd", cfg=(T, bd, full), mi=mi, replay=Y.replay_codes,
+            hs.append(dict(name=n, family="W", timeout=1500, mem_gb=28, rkind="wd", cfg=(T, bd, full), mi=mi, replay=Y.replay_codes,
                            obligation="W-lemma %s %d-bit %s %s: Rgb::try_from(&Yuv) on a 1x1 frame == M * normalised(Y,U,V), dot product evaluated m0*p0+(m1*p1+m2*p2) in f32, bit for bit; dimensions and labels preserved" % (T, bd, "full" if full else "limited", Y.MC_NAME[Y.MC_STD[mi]]),
                            sym="codes: all triples in [0,2^%d)^3" % bd, covers=["mid-range output explored"]))
+        for row in range(3):
+            n, code = Y.s_lemma(row)
+            txt += code
+            hs.append(dict(name=n, family="S", timeout=1500, mem_gb=10, replay=None,
+                           obligation="S-lemma row %d: the real Matrix::mul_arr is bit-identical to the straight-line f32 expression m0*p0 + (m1*p1 + m2*p2) (3 products, 2 sums; what the standard-model bound in the glue is about)" % row,
+                           sym="vector: every f32 in [-2,2]^3; the row's 3 coefficients on the fixed-point grid k/64, |k|<=128 (full-width coefficients make SAT prove the equivalence of two 24x24 multiplier circuits: >1500 s); other rows generic constants",
+                           covers=["non-trivial coefficients explored"]))
         txt += Y.EPILOGUE
         plan.modules.append(("src/yuv_rgb.rs", txt))
         plan.harnesses = hs
@@ -85,7 +97,8 @@ def plan(tier, seed):
                 "K-lemma: all 7 matrices", "W-lemma: all code triples on 1x1 frames for %d of the 140 (storage, depth, range, matrix) instances%s" % (len(wcfgs), "" if tier == "thorough" else " (quick tier: every matrix once, seeded choice of depth/range; thorough: all 140)"),
                 "glue: 7 matrices x 2 ranges x 9 depths x 3 components, codes relaxed to reals (strictly stronger)"]
     p.outside = ["image layout / subsampling (C11)", "FMA build (the standard-model bound also covers fused evaluation, but Kani compiles the non-FMA branch only)"]
-    p.assumptions = ["IEEE-754 standard model for the 3 products and 2 sums of the dot product (relative error <= 2^-24 each, products may underflow by <= 2^-140): used by the z3 glue, not re-proved",
+    p.assumptions = ["W-lemmas replace Matrix::mul_arr on both sides by one pure bit-mixing stand-in (they decide the wiring: which matrix, which inputs, in which order); that the real mul_arr is the 5-operation f32 expression is the S-lemma, proved for coefficient rows on the k/64 grid and every vector - mul_arr has no data-dependent control flow, so the same operation DAG is executed for full-width coefficients (argument, not a solver result)",
+                     "IEEE-754 standard model for the 3 products and 2 sums of the dot product (relative error <= 2^-24 each, products may underflow by <= 2^-140): used by the z3 glue, not re-proved",
                      "H.273 Kr/Kb constants and the YCgCo lifting matrix transcribed in props/yuvfam.py"]
     p.trusted += ["z3 4.8.12 (QF_LRA), cross-checked with cvc5 1.0 on the 8- and 16-bit queries"]
     return p
